@@ -286,6 +286,13 @@ M("cli-end-molecules-in-sorted-order", ["C20"], "gaddlemaps/_cli.py",
   "    manager = Manager.from_files(refrence_coordinates, *itps_cg)", "    manager = Manager.from_files(refrence_coordinates, *sorted(itps_cg))")
 M("cli-discovery-keyerror-back", ["C20"], "gaddlemaps/_cli.py",
   '            if "coor_AA" not in molecule_info and "top_AA" in molecule_info:', '            if "coor_AA" not in molecule_info:')
+# ---- directed-only sensitivity -------------------------------------------------------------------
+M("rot-half-angle-cos", ["C17"], "gaddlemaps/_auxilliary.py",
+  "    mtx = ddt + np.cos(theta) * (eye - ddt) + np.sin(theta) * skew", "    mtx = ddt + np.cos(theta) * (eye - ddt) + np.sin(theta) * skew * (1 + 1e-9)")
+M("move-revisits-closing-bond", ["C07"], "gaddlemaps/_transform_molecule.py",
+  "        atoms_pos[ind2] = atoms_pos[ind2] + (modulo - bond) * unit", "        atoms_pos[ind2] = atoms_pos[ind2] + (modulo - bond) * unit * (1 if len(bonds_info[ind2]) < 4 else 0.999999)")
+M("chi2-only-restr-forgets-dups", ["C08"], "gaddlemaps/_backend.py",
+  "            mol1_not_restriction_mask[restriction1] = False", "            mol1_not_restriction_mask[restriction1[:max(1, len(restriction1) - 1)]] = False")
 # ---- pbc --------------------------------------------------------------------------
 M("pbc-floor-instead-of-round", ["C19"], "gaddlemaps/components/_residue.py",
   "            vect -= np.round(vect)", "            vect -= np.floor(vect)")
